@@ -599,7 +599,11 @@ class RequestReadsAreLengthBounded(ScanCheck):
         rr = [f for f in cd.body if isinstance(f, ast.FunctionDef) and f.name == '_read_request']
         body = [s for s in rr[0].body if not (isinstance(s, ast.Expr) and isinstance(s.value, ast.Constant))] if rr else []
         calls = [ast.unparse(c.func) for s in body for c in ast.walk(s) if isinstance(c, ast.Call)]
-        out.append(('read_request_only_delegates_to_the_reader', bool(rr) and calls == ['HTTPReader.read_request_body'], {'calls': str(calls)}))
+        # logging is harmless; everything else in _read_request must be the one delegation to the reader
+        other = [c for c in calls if c != 'HTTPReader.read_request_body'
+                 and c.rsplit('.', 1)[-1] not in ('debug', 'info', 'warning', 'warn', 'error', 'exception', 'log')]
+        out.append(('read_request_only_delegates_to_the_reader',
+                    bool(rr) and calls.count('HTTPReader.read_request_body') == 1 and not other, {'calls': str(calls)}))
         return out
 
 
